@@ -189,6 +189,9 @@ pub fn test_overlay(c: &OverlayCase, ctx: &mut CaseCtx) -> Result<(), String> {
     probe.dedup();
     let unknown = u.keys().any(|k| !keys.contains(k));
     ctx.class_if(unknown, "unknown_key");
+    let n_unknown = u.keys().filter(|k| !keys.contains(*k)).count();
+    let n_unmentioned = keys.iter().filter(|k| !u.contains_key(*k)).count();
+    ctx.class_if(n_unknown > 0 && n_unmentioned > 0 && n_unknown >= n_unmentioned, "dump_with_as_many_unknown_as_missing_rules");
     ctx.class_if(u.values().any(|v| v.is_none()), "explicit_null");
     ctx.class_if(u.values().any(|v| *v == Some(false)), "explicit_off");
     if u.len() >= 2 {
@@ -348,7 +351,29 @@ pub fn test_lsp_config(c: &LspCfgCase, ctx: &mut CaseCtx) -> Result<(), String> 
         .iter()
         .map(|(k, v)| (k.clone(), v.map(Value::Bool).unwrap_or(Value::Null)))
         .collect();
-    let res: Result<Vec<crate::lsp::Diag>, crate::lsp::LspError> = SRV.with(|slot| {
+    let text: Vec<char> = c.text.chars().collect();
+    // model: curated defaults overlaid with the user's choices
+    let mut cfg = config_from(&c.user);
+    cfg.fill_with_curated();
+    let dict = FstDictionary::curated();
+    let doc = Document::new(&c.text, &PlainEnglish, &dict);
+    let dialect = crate::generators::DIALECTS[c.dialect as usize % 4];
+    let mut group = LintGroup::new_curated(dict.clone(), dialect).with_lint_config(cfg);
+    let want = match crate::core::catch(|| group.lint(&doc)) {
+        Ok(l) => l,
+        Err(_) => {
+            ctx.class("skipped_c01_panic");
+            return Ok(());
+        }
+    };
+    // where to ask for quick fixes: wherever this configuration or the curated one has a lint
+    let curated_lints = crate::core::catch(|| LintGroup::new_curated(dict.clone(), dialect).lint(&doc)).unwrap_or_default();
+    let mut probes: Vec<usize> = want.iter().chain(curated_lints.iter()).map(|l| l.span.start).collect();
+    probes.sort();
+    probes.dedup();
+    probes.truncate(24);
+
+    let res: Result<(Vec<crate::lsp::Diag>, Vec<(usize, Value)>), crate::lsp::LspError> = SRV.with(|slot| {
         let mut slot = slot.borrow_mut();
         if slot.is_none() {
             let sb = crate::lsp::Sandbox::new("c11");
@@ -364,35 +389,27 @@ pub fn test_lsp_config(c: &LspCfgCase, ctx: &mut CaseCtx) -> Result<(), String> 
             srv.notify("workspace/didChangeConfiguration", serde_json::json!({"settings": settings}))?;
             let uri = sb.uri(&format!("cfg{n}.txt"));
             let d = srv.open(&uri, "plaintext", &c.text)?;
+            // the quick fixes: computed by a second lint run inside the server
+            let mut actions = vec![];
+            for p in &probes {
+                let pos = index_to_pos(&text, *p);
+                actions.push((*p, srv.code_actions(&uri, (pos.line, pos.col), (pos.line, pos.col))?));
+            }
             srv.close(&uri)?;
-            Ok(d)
+            Ok((d, actions))
         })();
         if r.is_err() {
             *slot = None;
         }
         r
     });
-    let got = match res {
+    let (got, actions) = match res {
         Ok(d) => d,
         Err(e) => {
             ctx.infra(e);
             return Ok(());
         }
     };
-    // model
-    let mut cfg = config_from(&c.user);
-    cfg.fill_with_curated();
-    let dict = FstDictionary::curated();
-    let doc = Document::new(&c.text, &PlainEnglish, &dict);
-    let mut group = LintGroup::new_curated(dict, crate::generators::DIALECTS[c.dialect as usize % 4]).with_lint_config(cfg);
-    let want = match crate::core::catch(|| group.lint(&doc)) {
-        Ok(l) => l,
-        Err(_) => {
-            ctx.class("skipped_c01_panic");
-            return Ok(());
-        }
-    };
-    let text: Vec<char> = c.text.chars().collect();
     let mut a: Vec<String> = got.iter().map(|d| format!("{:?}-{:?} {}", d.start, d.end, d.message)).collect();
     let mut b: Vec<String> = want
         .iter()
@@ -417,10 +434,84 @@ pub fn test_lsp_config(c: &LspCfgCase, ctx: &mut CaseCtx) -> Result<(), String> 
             Value::Object(linters), a, c.text, b
         ));
     }
+    // the lints behind the code actions (every group of actions ends with an "ignore" command
+    // that carries its lint) are the lints of the same configuration
+    for (p, ans) in &actions {
+        let mut acted: Vec<String> = ans
+            .as_array()
+            .map(|arr| {
+                arr.iter()
+                    .filter(|x| x["command"].as_str() == Some("HarperIgnoreLint"))
+                    .map(|x| {
+                        let l = &x["arguments"][1];
+                        format!("{}..{} {}", l["span"]["start"], l["span"]["end"], l["message"].as_str().unwrap_or(""))
+                    })
+                    .collect()
+            })
+            .unwrap_or_default();
+        let mut wanted: Vec<String> = want
+            .iter()
+            .filter(|l| l.span.start < p + 1 && *p < l.span.end)
+            .map(|l| format!("{}..{} {}", l.span.start, l.span.end, l.message))
+            .collect();
+        acted.sort();
+        acted.dedup();
+        wanted.sort();
+        wanted.dedup();
+        if wanted.is_empty() {
+            ctx.class("code_actions_asked_where_only_the_curated_config_has_a_lint");
+        } else {
+            ctx.class("code_actions_compared");
+        }
+        if acted != wanted {
+            return Err(format!(
+                "harper-ls with linters={} dialect={dialect_name}: the code actions at char {p} of {:?} belong to the lints {:?}; this configuration has {:?} there",
+                Value::Object(linters), c.text, acted, wanted
+            ));
+        }
+    }
     Ok(())
 }
 
+/// What a settings file written by a GUI (or by an older release) looks like: nearly every rule
+/// pinned, a few missing, a few names the current release does not know.
+fn settings_dump() -> BoxedStrategy<Vec<(String, Option<bool>)>> {
+    (
+        proptest::collection::vec(any::<u16>(), 0..6),
+        proptest::collection::vec(any::<bool>(), 400),
+        0usize..8,
+        0u8..3,
+    )
+        .prop_map(|(missing, vals, unknown, mode)| {
+            let keys = &harvest().rule_keys;
+            let curated = LintGroupConfig::new_curated();
+            let skip: Vec<usize> = missing.iter().map(|m| (*m as usize * keys.len()) >> 16).collect();
+            let mut out: Vec<(String, Option<bool>)> = keys
+                .iter()
+                .enumerate()
+                .filter(|(i, _)| !skip.contains(i))
+                .map(|(i, k)| {
+                    let v = match mode {
+                        0 => curated.is_rule_enabled(k),   // a dump of the defaults
+                        1 => !curated.is_rule_enabled(k),  // everything flipped
+                        _ => vals[i % vals.len()],
+                    };
+                    (k.clone(), Some(v))
+                })
+                .collect();
+            for u in 0..unknown {
+                out.push((format!("RuleFromAnOlderRelease{u}"), Some(u % 2 == 0)));
+            }
+            out
+        })
+        .boxed()
+}
+
 fn user_entries() -> BoxedStrategy<Vec<(String, Option<bool>)>> {
+    prop_oneof![5 => few_entries(), 1 => settings_dump()].boxed()
+}
+
+fn few_entries() -> BoxedStrategy<Vec<(String, Option<bool>)>> {
     let key = prop_oneof![
         10 => g::rule_key(),
         2 => g::sel_str(&["SpellCheck", "SentenceCapitalization", "RepeatedWords", "AnA", "LongSentences", "SpelledNumbers", "BoringWords", "Intact"]),
@@ -443,7 +534,7 @@ fn multi_rule_text() -> BoxedStrategy<String> {
 }
 
 pub fn run(run: &mut Run) {
-    run.rule = "(a) additivity: documents of 1-3 harvested rule sentences / G-TEXT; S = all rules or a random subset, random 2-partition A+B: multiset(lints(S)) == lints(A)+lints(B), all-off gives nothing; a share of cases also compare with the sum over all single-rule runs and check that switching one firing rule off removes exactly its lints. Rules = distinct configuration keys. (b) overlay algebra against a map model: fill_with_curated, merge_from, clear, JSON round trip, unknown keys harmless (built through JSON incl. explicit null). (d) harper.js linter: set_lint_config_from_json + lint equals the in-process model. Non-trivial (a) = |S|>=2 and >=2 different rules fire.".into();
+    run.rule = "(a) additivity: documents of 1-3 harvested rule sentences / G-TEXT; S = all rules or a random subset, random 2-partition A+B: multiset(lints(S)) == lints(A)+lints(B), all-off gives nothing; a share of cases also compare with the sum over all single-rule runs and check that switching one firing rule off removes exactly its lints. Rules = distinct configuration keys. (b) overlay algebra against a map model: fill_with_curated, merge_from, clear, JSON round trip, unknown keys harmless (built through JSON incl. explicit null). (d) harper.js linter: set_lint_config_from_json + lint equals the in-process model. Non-trivial (a) = |S|>=2 and >=2 different rules fire. User configurations are 0-7 entries or a settings dump (nearly every rule pinned, 0-5 missing, 0-7 names the release does not know). In language_server_settings the quick fixes are requested at every position where this configuration or the curated one has a lint: the lints carried by the code actions must be the lints of this configuration at that position.".into();
     let n = run.n(2_000, 50_000);
     let singles_share = run.tier.pick(40u32, 25u32);
     run.prop(
@@ -482,6 +573,7 @@ pub fn run(run: &mut Run) {
         test_overlay,
     );
     run.require_class("overlay_algebra", "unknown_key", (n / 20) as u64);
+    run.require_class("overlay_algebra", "dump_with_as_many_unknown_as_missing_rules", (n / 100) as u64);
     run.require_class("overlay_algebra", "explicit_null", (n / 10) as u64);
 
     let n = run.n(600, 20_000);
@@ -524,6 +616,8 @@ pub fn run(run: &mut Run) {
     run.threads = saved;
     run.require_class("language_server_settings", "has_lints", (n / 3) as u64);
     run.require_class("language_server_settings", "turns_on_a_default_off_rule", (n / 5) as u64);
+    run.require_class("language_server_settings", "code_actions_compared", n as u64);
+    run.require_class("language_server_settings", "code_actions_asked_where_only_the_curated_config_has_a_lint", (n / 10) as u64);
 }
 
 pub fn replay(check: &str, case: Value, _run: &mut Run) -> Result<(), String> {
